@@ -14,7 +14,7 @@ HEXH = re.compile(r"^[0-9a-fA-F]+h$")
 
 
 def clean(name: str) -> bool:
-    return (name != "" and not (set(name) & META) and not HEXH.match(name) and name != "times"
+    return (name != "" and not (set(name) & META) and not (HEXH.match(name) and name.lower() not in ("ah", "bh", "ch", "dh")) and name != "times"
             and not name.startswith(("&", "@", "$")) and "," not in name and " " not in name)
 
 
